@@ -131,6 +131,7 @@ func runC13(w *World, r *Report) {
 	r.Rule("idempotent", "every store of Len/MarshalBinary/Read into receiver-reachable memory has an idempotent form", 15)
 	r.Rule("readonly", "calls on receiver-rooted state reach only read-only standard-library methods", 20)
 	r.Rule("pure", "a size/encode method without any store into its receiver", 200)
+	r.Rule("settled", "state an encoder stores into a part of the value is stored before that part is encoded", 10)
 	nMethods := 0
 	for _, k := range w.KindsL {
 		type m struct {
@@ -208,6 +209,42 @@ func runC13(w *World, r *Report) {
 					r.OK("readonly", subj, path+"→"+name, w.Pos(c.Pos), "read-only method", true)
 				} else {
 					r.Fail(VViolation, "readonly", subj, path+"→"+name, w.Pos(c.Pos), "call of "+name+" on receiver state "+path+": not known to leave it unchanged")
+				}
+			}
+			// settled: nothing the encoder stores into a part of the value may be stored
+			// after that part was already encoded (otherwise the first encoding differs
+			// from every later one)
+			if mm.mode == "encode" {
+				if es := w.EncSummaryOf(mm.f); es != nil {
+					for _, rec := range es.Recs {
+						for _, s := range fs.Stores {
+							iv, isInt := s.Val.(IntV)
+							if !isInt || s.Op != "=" {
+								continue
+							}
+							if at := iv.T.SingleAtom(); at != nil && at.Kind == "val" && at.Path == s.Path {
+								continue // identity store
+							}
+							switch {
+							case rec.Kind == "child" && strings.HasPrefix(rec.Src, "enc(") && rec.Snap != nil:
+								p := strings.TrimSuffix(strings.TrimPrefix(rec.Src, "enc("), ")")
+								if !strings.HasPrefix(s.Path, p+".") {
+									continue
+								}
+								seq, ok := rec.Snap["#seq"]
+								if !ok {
+									continue
+								}
+								if int64(s.Seq) < seq.C {
+									r.OK("settled", subj, s.Path+"@enc("+p+")", w.Pos(rec.Pos), "stored before "+p+" is encoded", true)
+								} else {
+									r.Fail(VViolation, "settled", subj, s.Path+"@enc("+p+")", w.Pos(rec.Pos), p+" is encoded before "+s.Path+" is assigned "+iv.T.String()+" (at "+w.Pos(s.Pos)+"): the first encoding carries the previous value, later ones the new one")
+								}
+							case rec.Kind == "int" && rec.Src == "val("+s.Path+")":
+								r.Fail(VViolation, "settled", subj, s.Path+"@write", w.Pos(rec.Pos), s.Path+" is written to the output before it is assigned "+iv.T.String()+" (at "+w.Pos(s.Pos)+"): the first encoding carries the previous value")
+							}
+						}
+					}
 				}
 			}
 			if nst == 0 {
